@@ -113,9 +113,10 @@ def model_selftest_jobs(chk, ex):
     """The named deviations of the pinned tree must be exhibited by TLC in the model (anti-vacuity
     of the invariants), and every probe state must be reachable."""
     futs = {}
-    for dev, start in (("ChildReturnsErr", True), ("ExecveNegErrno", True), ("EnvTestInverted", False), ("WaitHoldsPipes", True)):
+    for dev, start in (("ChildReturnsErr", True), ("ExecveNegErrno", True), ("EnvTestInverted", False), ("WaitHoldsPipes", True),
+                       ("TryWaitNoCache", True)):
         futs[dev] = ex.submit(_selftest_dev, chk, dev, start)
-    for probe in ("ProbeOk", "ProbeErrParent", "ProbeErrChild", "ProbeWaited"):
+    for probe in ("ProbeOk", "ProbeErrParent", "ProbeErrChild", "ProbeWaited", "ProbeWaitedTwice", "ProbeTryNone"):
         futs[probe] = ex.submit(_selftest_probe, chk, probe)
     return futs
 
@@ -175,24 +176,30 @@ def idval(setting, own):
 
 
 HELPERS = ["h7", "h7", "h0", "k9", "h7", "h3", "k15"]   # exit(7) / exit(0) / SIGKILL / exit(3) / SIGTERM
+# the wait-sequence plans are run with each of: plain exit code, exit code >= 128 (looks like 128+SIGKILL
+# to a shell, but is a normal exit: raw status 137<<8), really killed by SIGKILL (raw status 9)
+WAIT_HELPERS = ["h7", "h137", "k9"]
 
 
-def helper_name(idx, stdin_pipe=False):
+def helper_name(idx, stdin_pipe=False, override=None):
     # ...r: the helper reads its stdin to the end before it dumps and exits
-    return HELPERS[idx % len(HELPERS)] + ("r" if stdin_pipe else "")
+    return (override or HELPERS[idx % len(HELPERS)]) + ("r" if stdin_pipe else "")
 
 
-def concretise(plan, rundir, variant, idx):
+def concretise(plan, rundir, variant, idx, helper=None):
     cfg = plan["cfg"]
     start, env_alt = VARIANTS[variant][1], VARIANTS[variant][2]
-    binp = os.path.join(rundir, helper_name(idx, cfg["io"][0] == "pipe") if cfg["prog"] == "ok" else "nobin")
+    binp = os.path.join(rundir, helper_name(idx, cfg["io"][0] == "pipe", helper) if cfg["prog"] == "ok" else "nobin")
+    wseq = list(cfg.get("wseq", ["wait"]))
+    if wseq == ["wait"] and idx % 10 == 2:
+        wseq = ["poll"]          # same call sequence for the model (the polls collapse), other API
     cwd = {"none": None, "ok": os.path.join(rundir, "dirA"), "missing": os.path.join(rundir, "dirX")}[cfg["cwd"]]
     io = list(cfg["io"])
     names = ["stdin", "stdout", "stderr"]
     dplan = {"bin": binp, "args": ARGS[:cfg["nargs"]], "env": ENVS[:cfg["nenv"]] if cfg["nenv"] else None,
              "cwd": cwd, "uid": idval(cfg["uid"], os.getuid()), "gid": idval(cfg["gid"], os.getgid()),
              "pgroup": 0 if cfg["pg"] == "own" else None,
-             "pre_exec": list(cfg["pre"]), "open": [], "wait": "try" if idx % 10 == 2 else True,
+             "pre_exec": list(cfg["pre"]), "open": [], "wait": wseq,
              "bulk": idx % 2 == 1, "feed": ("feed%d" % idx) if cfg["io"][0] == "pipe" else None}
     for s in range(3):
         m = io[s]
@@ -256,7 +263,7 @@ def execute(job):
         shutil.rmtree(rundir)
     os.makedirs(os.path.join(rundir, "dirA"))
     os.chmod(rundir, 0o777)      # the helper may run as another user and must be able to write its dump
-    helper = os.path.join(rundir, helper_name(job["idx"], job["plan"]["cfg"]["io"][0] == "pipe"))
+    helper = os.path.join(rundir, helper_name(job["idx"], job["plan"]["cfg"]["io"][0] == "pipe", job.get("helper")))
     try:
         os.link(os.path.join(job["tools"], "spawn_helper"), helper)
     except OSError:
@@ -266,7 +273,7 @@ def execute(job):
             fh.write("raw%d\n" % s)
     for n in ("drv_in", "drv_out", "drv_err"):
         open(os.path.join(rundir, n), "w").close()
-    dplan, c, inj = concretise(job["plan"], rundir, job["variant"], job["idx"])
+    dplan, c, inj = concretise(job["plan"], rundir, job["variant"], job["idx"], job.get("helper"))
     with open(os.path.join(rundir, "plan.json"), "w") as fh:
         json.dump(dplan, fh)
     log = os.path.join(rundir, "log.ndjson")
@@ -304,7 +311,8 @@ def execute(job):
             return execute(dict(job, timeout_ms=20000))
         with HANG_LOCK:
             HANGS["n"] += 1
-    return {"idx": job["idx"], "events": events, "c": c, "dplan": dplan, "inj": inj, "tracer": tr, "driver": dv, "dump": dump}
+    return {"idx": job["idx"], "events": events, "c": c, "dplan": dplan, "inj": inj, "tracer": tr, "driver": dv, "dump": dump,
+            "helper_kind": os.path.basename(helper).rstrip("r")}
 
 
 def probe_args(dplan):
@@ -320,7 +328,7 @@ def probe_args(dplan):
         v = dplan[k]
         if v is not None:
             a.append("%s=%s" % (n, v if isinstance(v, str) else "fd:%d" % v["fd"]))
-    a += ["pre=%d" % x for x in dplan["pre_exec"]] + (["wait=try"] if dplan["wait"] == "try" else [])
+    a += ["pre=%d" % x for x in dplan["pre_exec"]] + ["wait=" + ",".join(dplan["wait"])]
     if dplan.get("bulk") and "env" not in dplan.get("_noalloc", ""):
         a.append("bulk=1")
     if dplan.get("feed"):
@@ -335,7 +343,7 @@ def info_from_driver(idx, c, dv):
     """what the std-linked driver reported about itself: descriptors before spawn, the Child's pipes, wait"""
     drv = next((e for e in dv if e.get("ev") == "driver"), None)
     ret = next((e for e in dv if e.get("ev") == "returned"), None)
-    waited = next((e for e in dv if e.get("ev") == "waited"), None)
+    waited = [{"res": e["res"], "status": e.get("status") or 0} for e in dv if e.get("ev") == "waited"]
     if drv is None:
         raise core.ToolError("driver wrote no 'driver' event (run %d)" % idx)
     pipes = []
@@ -344,8 +352,7 @@ def info_from_driver(idx, c, dv):
         pipes.append({"link": pe["link"], "acc": pe["acc"]} if pe else dict(NOFD))
     return {"dio": [fdent(drv["fds"], i) for i in range(3)],
             "raw": [fdent(drv["fds"], RAWFD[i]) if c["io"][i] == "raw" else dict(NOFD) for i in range(3)],
-            "pipes": pipes, "pgrp": drv["pgrp"],
-            "waited": None if waited is None else {"res": waited["res"], "status": waited.get("status", waited.get("code") or 0) or 0}}
+            "pipes": pipes, "pgrp": drv["pgrp"], "waited": waited}
 
 
 def info_from_tracer(idx, c, tr):
@@ -360,11 +367,11 @@ def info_from_tracer(idx, c, tr):
     if rmark and retfds:
         nums = [int(x) for x in rmark["text"].split(":")[2].split(",")]
         pipes = [fdent(retfds["fds"], n) if n >= 0 else dict(NOFD) for n in nums]
-    waited = None
+    waited = []
     for e in tr:
         if e["ev"] == "mark" and e["task"] == 1 and e["text"].startswith("waited:"):
-            t = e["text"].split(":")
-            waited = {"res": t[1], "status": int(t[2]) if t[2].lstrip("-").isdigit() else 0}
+            t = e["text"].split(":")      # waited:<op>:<ok|none|err>:<status|code|none>
+            waited.append({"res": t[2], "status": int(t[3]) if t[3].lstrip("-").isdigit() else 0})
     return {"dio": [fdent(begin["fds"], i) for i in range(3)],
             "raw": [fdent(begin["fds"], RAWFD[i]) if c["io"][i] == "raw" else dict(NOFD) for i in range(3)],
             "pipes": pipes, "pgrp": begin["pgrp"], "waited": waited}
@@ -419,8 +426,8 @@ def assemble(idx, c, tr, info, dump):
             out.append({"ev": "exit", "task": e["task"], "status": e["status"]})
         elif k == "timeout":
             out.append({"ev": "anomaly", "what": "TimedOut"})
-    if waited is not None:
-        out.append({"ev": "waited", "res": waited["res"], "status": waited["status"]})
+    for w in waited:
+        out.append({"ev": "waited", "res": w["res"], "status": w["status"]})
     out.append({"ev": "end"})
     return out
 
@@ -465,7 +472,11 @@ def conformance(run, plan, verdict):
             continue
         p1.append(x)
     h[1] = p1
-    mp = [x for x in plan["hist"]["P"] if x[0] != "close"]
+    mp = []
+    for x in plan["hist"]["P"]:
+        if x[0] == "close" or (x == ["wait4", 0] and mp and mp[-1] == ["wait4", 0]):
+            continue
+        mp.append(x)
     mc = [x for x in plan["hist"]["C"] if x[0] != "close"]
     diffs = []
     if h[1] != mp:
@@ -478,9 +489,15 @@ def conformance(run, plan, verdict):
         diffs.append({"what": "returns", "model": mr, "real": rr})
     if plan["execd"] != verdict["execd"]:
         diffs.append({"what": "execd", "model": plan["execd"], "real": verdict["execd"]})
-    if helper_name(run["idx"]).startswith("h7") and plan["waitres"]["res"] == "ok" and verdict["waitres"]["res"] == "ok" \
-            and plan["waitres"]["status"] != verdict["waitres"]["status"]:
-        diffs.append({"what": "wait status", "model": plan["waitres"], "real": verdict["waitres"]})
+    mw = [[w["res"], w["status"]] for w in plan["waits"]]
+    rw = [[w["res"], w["status"]] for w in verdict["waits"]]
+    if run.get("helper_kind", "h7") == "h7":
+        # a single try_wait may or may not find the child finished: compare the shape only where the
+        # model says so too; statuses are comparable when the helper exits with 7 like the model's
+        if [x[0] for x in mw] != [x[0] for x in rw] and "try" not in plan["cfg"].get("wseq", []):
+            diffs.append({"what": "wait results", "model": mw, "real": rw})
+        elif any(a[0] == "ok" and b[0] == "ok" and a[1] != b[1] for a, b in zip(mw, rw)):
+            diffs.append({"what": "wait status", "model": mw, "real": rw})
     return diffs
 
 
@@ -559,14 +576,21 @@ def run(tier):
         if variant == "noalloc":
             plans = [p for p in plans if p["cfg"]["nenv"] == 0]     # no provided environment without alloc
         chosen, n_nofault, n_groups = select_plans(plans, tier, random.Random(seed))
-        info = {"generated_by_tlc": len(plans), "executed": len(chosen), "configurations_without_fault": n_nofault,
+        info = {"generated_by_tlc": len(plans), "executed_plans": len(chosen), "configurations_without_fault": n_nofault,
                 "fault_x_outcome_classes": n_groups, "model_states": res.distinct}
         bindir = core.cargo_build(template=template, bins=None if template.startswith("probe/") else ["spawnd"])
         base = os.path.join(chk.work, "runs-" + variant)
         if os.path.isdir(base):
             shutil.rmtree(base)
-        jobs = [{"idx": i + 1, "plan": p, "variant": variant, "rundir": os.path.join(base, "r%05d" % (i + 1)),
-                 "bindir": bindir, "tools": tools} for i, p in enumerate(chosen)]
+        jobs = []
+        for p in chosen:
+            kinds = [None]
+            if p["cfg"].get("wseq", ["wait"]) != ["wait"] and p["fault"]["k"] == 0:
+                kinds = WAIT_HELPERS          # every call sequence with exit code / code >= 128 / signal
+            for kind in kinds:
+                i = len(jobs) + 1
+                jobs.append({"idx": i, "plan": p, "variant": variant, "rundir": os.path.join(base, "r%05d" % i),
+                             "bindir": bindir, "tools": tools, "helper": kind})
         t1 = time.time()
         with concurrent.futures.ThreadPoolExecutor(max_workers=3) as ex2:
             runs = list(ex2.map(execute, jobs))
@@ -613,7 +637,7 @@ def run(tier):
                     cl, variant, json.dumps(plan["cfg"], sort_keys=True), json.dumps(plan["fault"], sort_keys=True),
                     json.dumps(v["returns"]), json.dumps(v["failed"]), v["child"], v["execd"],
                     (" mismatch=%s" % v["mismatch"]) if v.get("mismatch") else "")
-                chk.violate(sig, what, {"variant": variant, "plan": plan, "driver_plan": r["dplan"], "inject": r["inj"],
+                chk.violate(sig, what, {"variant": variant, "plan": plan, "helper": job.get("helper"), "driver_plan": r["dplan"], "inject": r["inj"],
                                         "verdict": v, "events": r["events"]})
             if allruns % 97 == 1:
                 chk.sample({"variant": variant, "cfg": plan["cfg"], "fault": plan["fault"],
@@ -710,6 +734,11 @@ def judge_selftest(chk):
         ("cwd-changed", ok, setf("dump", lambda e: True, cwd="/"), "OkMeansConfigured"),
         ("stdout-not-the-pipe", ok, lambda evs: [dict(e, io=[e["io"][0], e["io"][2], e["io"][2]]) if e["ev"] == "dump" else e for e in evs], "OkMeansConfigured"),
         ("wait-status-changed", ok, setf("waited", lambda e: True, status=3584), "WaitStatus"),
+        ("later-wait-says-echild", ok, lambda evs: evs[:-1] + [{"ev": "waited", "res": "err", "status": 10}, evs[-1]], "WaitStatusStable"),
+        ("later-wait-other-status", ok, lambda evs: evs[:-1] + [{"ev": "waited", "res": "ok", "status": 0}, evs[-1]], "WaitStatusStable"),
+        ("later-try-wait-says-running", ok, lambda evs: evs[:-1] + [{"ev": "waited", "res": "none", "status": 0}, evs[-1]], "WaitStatusStable"),
+        ("try-none-before-ok-is-fine", ok, lambda evs: [x for e in evs for x in ([{"ev": "waited", "res": "none", "status": 0}, e] if e["ev"] == "waited" else [e])], None),
+        ("same-status-again-is-fine", ok, lambda evs: [x for e in evs for x in ([e, dict(e)] if e["ev"] == "waited" else [e])], None),
         ("no-return", ok, lambda evs: [e for e in evs if not (e["ev"] == "mark" and e["kind"] == "returned")], "ReturnsExactlyOnceInCaller"),
         ("child-never-exits", err, lambda evs: [e for e in evs if not (e["ev"] == "exit" and e["task"] == 2)], "NoneLeftRunning"),
         ("hang", ok, lambda evs: evs[:-1] + [{"ev": "anomaly", "what": "TimedOut"}, evs[-1]], "Anomaly:TimedOut"),
@@ -745,7 +774,7 @@ def replay(path):
     variant = rp["variant"]
     bindir = core.cargo_build(template=VARIANTS[variant][0], bins=None if VARIANTS[variant][0].startswith("probe/") else ["spawnd"])
     job = {"idx": 1, "plan": rp["plan"], "variant": variant, "rundir": os.path.join(chk.work, "replay", "r1"),
-           "bindir": bindir, "tools": tools}
+           "bindir": bindir, "tools": tools, "helper": rp.get("helper")}
     r = execute(job)
     v = judge(chk, [r], "replay")[0][1]
     for e in r["events"]:
